@@ -410,6 +410,12 @@ def run(repo, rep):
     common.numeric_type_rule(repo, rep, [('geodepy.transform', 'transform_mga94_to_mga2020'), ('geodepy.transform', 'transform_mga2020_to_mga94'), ('geodepy.transform', 'conform7')])
     common.partial_call_rule(repo, rep, [('geodepy.transform', 'conform7'), ('geodepy.statistics', 'vcv_local2cart'), ('geodepy.statistics', 'vcv_cart2local'), ('geodepy.transform', 'transform_mga94_to_mga2020'), ('geodepy.transform', 'transform_mga2020_to_mga94')], 'the covariance matrices')
     # in-place array updates met while evaluating the functions above (element type follows the caller's numbers)
+    # the propagated covariance is conform7's: its point formula, Jacobian (every column against the exact derivative) and branches are part
+    # of what the MGA functions return - and so are the rotations of geodepy.statistics (zero variances included: a singular covariance is valid)
+    from . import c06, c16
+    c06._run(repo, rep)
+    c16.exact_symmetry_guard_rule(repo, rep)
+    c16.variance_guard_rule(repo, rep)
     common.dtype_rule(repo, rep, [('geodepy.transform', 'conform7'), ('geodepy.transform', 'transform_mga94_to_mga2020'), ('geodepy.transform', 'transform_mga2020_to_mga94'), ('geodepy.statistics', 'vcv_local2cart'), ('geodepy.statistics', 'vcv_cart2local'), ('geodepy.statistics', 'rotation_matrix')])
 
 
